@@ -37,6 +37,38 @@ impl VmCase {
     }
 }
 
+impl VmCase {
+    /// Inverse of [`VmCase::request`] (for `--replay`).
+    pub fn parse(line: &str) -> Option<VmCase> {
+        let f: Vec<&str> = line.split_whitespace().collect();
+        if f.len() < 17 || f[0] != "X02" {
+            return None;
+        }
+        let h = |s: &str| u32::from_str_radix(s, 16).ok();
+        let mut regs = [0u16; 8];
+        for i in 0..8 {
+            regs[i] = h(f[6 + i])? as u16;
+        }
+        let nmem = h(f[15])? as usize;
+        let mut mem = Vec::new();
+        for k in 0..nmem {
+            mem.push((h(f[16 + 2 * k])? as u16, h(f[17 + 2 * k])? as u16));
+        }
+        let inp = crate::cap::unhex(f.get(16 + 2 * nmem)?)?;
+        Some(VmCase {
+            stack: f[1] != "0",
+            minimal: f[2] != "0",
+            instr: h(f[3])? as u16,
+            pc: h(f[4])? as u16,
+            cc: h(f[5])? as u8,
+            regs,
+            orig: h(f[14])? as u16,
+            mem,
+            inp,
+        })
+    }
+}
+
 /// Outcome class of running lace code under `catch_unwind` with the exit hook armed.
 pub enum Outcome {
     Ok,
@@ -328,4 +360,56 @@ pub fn sample_json(c: &VmCase) -> String {
         c.mem.len(),
         c.inp.len()
     )
+}
+
+pub fn run(o: &crate::Opts) {
+    let mut cap = Capture::install();
+    let mut sink = crate::Sink::new(o);
+    let mut runner = VmRunner::new();
+    if let Some(path) = &o.replay {
+        for line in std::fs::read_to_string(path).unwrap().lines() {
+            match VmCase::parse(line) {
+                Some(c) => {
+                    let obs = runner.run(&mut cap, &c);
+                    sink.put(line, &obs);
+                }
+                None => sink.put(line, "bad-request"),
+            }
+        }
+        sink.finish(o, "{}");
+        return;
+    }
+    let mut rng = Rng::new(o.seed ^ 0xC02);
+    let mut samples: Vec<String> = Vec::new();
+    let mut by_opcode = [0u64; 16];
+    let mut corpus_n = 0;
+    if o.shard == 0 {
+        for c in corpus() {
+            let line = runner.run(&mut cap, &c);
+            sink.put(&c.request(), &line);
+            corpus_n += 1;
+        }
+    }
+    // every instruction word, `variants` machine states each; words are dealt to shards
+    let variants: u32 = if o.thorough { 32 } else { 3 };
+    for w in 0..=0xFFFFu32 {
+        if (w as usize) % o.nshards != o.shard {
+            continue;
+        }
+        let mut wrng = Rng::new(o.seed.wrapping_mul(65537).wrapping_add(w as u64));
+        for variant in 0..variants {
+            let c = gen_state(&mut wrng, w as u16, variant);
+            let line = runner.run(&mut cap, &c);
+            by_opcode[(w >> 12) as usize] += 1;
+            if samples.len() < 4 && rng.chance(1, 3000) {
+                samples.push(sample_json(&c));
+            }
+            sink.put(&c.request(), &line);
+        }
+    }
+    let stats = format!(
+        "{{\"cases\":{},\"corpus\":{},\"variants_per_word\":{},\"by_opcode\":{:?},\"samples\":[{}]}}",
+        sink.n, corpus_n, variants, by_opcode, samples.join(",")
+    );
+    sink.finish(o, &stats);
 }
